@@ -678,3 +678,34 @@ mod test {
     test_buf_bit_writer!(test_u16, u16);
     test_buf_bit_writer!(test_usize, usize);
 }
+
+/// Verification hooks (compiled only under `cfg(kani)` or
+/// `--cfg dsi_bitstream_verif`): build a writer from an arbitrary internal
+/// state and read the internal state back.
+#[cfg(any(kani, dsi_bitstream_verif))]
+impl<E: Endianness, WW: WordWrite, WP: WriteParams> BufBitWriter<E, WW, WP> {
+    #[doc(hidden)]
+    pub fn verif_from_parts(backend: WW, buffer: WW::Word, space_left_in_buffer: usize) -> Self {
+        Self {
+            backend,
+            buffer,
+            space_left_in_buffer,
+            _marker_endianness: core::marker::PhantomData,
+        }
+    }
+
+    #[doc(hidden)]
+    pub fn verif_parts(&self) -> (WW::Word, usize) {
+        (self.buffer, self.space_left_in_buffer)
+    }
+
+    #[doc(hidden)]
+    pub fn verif_backend(&self) -> &WW {
+        &self.backend
+    }
+
+    #[doc(hidden)]
+    pub fn verif_backend_mut(&mut self) -> &mut WW {
+        &mut self.backend
+    }
+}
